@@ -448,6 +448,50 @@ theorem C27_member_line_fields (m : Member) (haddr : TAB ∉ m.addr ∧ NL ∉ m
 (the documentation promises escaping, not a decodable encoding) -/
 theorem C27_eventClean_not_injective : eventClean [9] = eventClean [92, 116] := by decide
 
+/-! ## member addresses: the hypothesis of `C27_member_line` discharged for IPv4 and nil -/
+
+theorem digit_clean (n : Nat) : digit n ≠ TAB ∧ digit n ≠ NL := by
+  have h : ∀ k : Fin 10, UInt8.ofNat (48 + k.val) ≠ TAB ∧ UInt8.ofNat (48 + k.val) ≠ NL := by decide
+  exact h ⟨n % 10, Nat.mod_lt _ (by decide)⟩
+
+theorem octet_clean (n : Nat) : TAB ∉ octet n ∧ NL ∉ octet n := by
+  unfold octet
+  have d := digit_clean
+  split
+  · simp only [List.mem_singleton]; exact ⟨fun e => (d n).1 e.symm, fun e => (d n).2 e.symm⟩
+  · split
+    · simp only [List.mem_cons, List.not_mem_nil, or_false, not_or]
+      exact ⟨⟨fun e => (d _).1 e.symm, fun e => (d _).1 e.symm⟩, ⟨fun e => (d _).2 e.symm, fun e => (d _).2 e.symm⟩⟩
+    · simp only [List.mem_cons, List.not_mem_nil, or_false, not_or]
+      exact ⟨⟨fun e => (d _).1 e.symm, fun e => (d _).1 e.symm, fun e => (d _).1 e.symm⟩,
+        ⟨fun e => (d _).2 e.symm, fun e => (d _).2 e.symm, fun e => (d _).2 e.symm⟩⟩
+
+/-- the dotted-decimal text of an IPv4 address and the text of the nil address contain neither
+a tab nor a newline -/
+theorem C27_addr_clean (a c d e : Nat) :
+    (TAB ∉ ipv4 a c d e ∧ NL ∉ ipv4 a c d e) ∧ (TAB ∉ nilAddr ∧ NL ∉ nilAddr) := by
+  refine ⟨?_, by decide⟩
+  unfold ipv4
+  have o := octet_clean
+  have hd : DOT ≠ TAB ∧ DOT ≠ NL := by decide
+  simp only [List.mem_append, List.mem_cons, not_or]
+  exact ⟨⟨⟨⟨(o a).1, fun h => hd.1 h.symm, (o c).1⟩, fun h => hd.1 h.symm, (o d).1⟩, fun h => hd.1 h.symm, (o e).1⟩,
+    ⟨⟨⟨(o a).2, fun h => hd.2 h.symm, (o c).2⟩, fun h => hd.2 h.symm, (o d).2⟩, fun h => hd.2 h.symm, (o e).2⟩⟩
+
+/-- **`C27_member_line` without a hypothesis**, for every member with an IPv4 or nil address:
+four tab-separated fields, one newline, at the end — whatever name, role and tags contain. -/
+theorem C27_member_line_ipv4 (name : Bytes) (tags : Tags) (a c d e : Nat) :
+    (splitOn TAB (memberLine ⟨name, ipv4 a c d e, tags⟩)).length = 4 ∧
+    (memberLine ⟨name, ipv4 a c d e, tags⟩).count NL = 1 ∧
+    (memberLine ⟨name, ipv4 a c d e, tags⟩).getLast? = some NL ∧
+    (splitOn TAB (memberLine ⟨name, nilAddr, tags⟩)).length = 4 ∧
+    (memberLine ⟨name, nilAddr, tags⟩).count NL = 1 :=
+  have h1 := C27_member_line ⟨name, ipv4 a c d e, tags⟩ (C27_addr_clean a c d e).1
+  have h2 := C27_member_line ⟨name, nilAddr, tags⟩ (C27_addr_clean a c d e).2
+  ⟨h1.1, h1.2.1, h1.2.2, h2.1, h2.2.1⟩
+
+example : ipv4 10 0 200 7 = [49, 48, 46, 48, 46, 50, 48, 48, 46, 55] := by decide
+
 /-! ## the decisive shapes and constants of the source (regenerated on every run)
 
 `SerfModel.Gen.EventScriptSrc`: statement skeletons of the event-handler functions and, byte
